@@ -3,8 +3,10 @@
 /verif/seeded/<id>/ (patch.diff, demo.py, meta.json). Usage: intake_seed.py <out_dir> <property> [k ...]"""
 import json, os, shutil, subprocess, sys, tempfile
 
-out_dir, prop = sys.argv[1], sys.argv[2]
-ks = sys.argv[3:] or ["1", "2"]
+args = [a for a in sys.argv[1:] if not a.startswith("--id=")]
+ids = [a[5:] for a in sys.argv[1:] if a.startswith("--id=")]
+out_dir, prop = args[0], args[1]
+ks = args[2:] or ["1", "2"]
 VERIF = os.path.dirname(os.path.dirname(os.path.abspath(__file__)))
 
 
@@ -40,7 +42,7 @@ for k in ks:
         if not ok:
             print(o0[-400:], o1[-400:])
             continue
-        dst = os.path.join(VERIF, "seeded", f"{prop}-{k}")
+        dst = os.path.join(VERIF, "seeded", ids[0] if ids else f"{prop}-{k}")
         os.makedirs(dst, exist_ok=True)
         shutil.copy(patch, os.path.join(dst, "patch.diff"))
         shutil.copy(demo, os.path.join(dst, "demo.py"))
